@@ -1,10 +1,12 @@
 (** C11 — Scope close protocol: ordered events, commit xor rollback, waits for children.
-    Statements only; every proof is [exact <lemma>] (Proofs/Scope.v, Proofs/ScopeClose.v).
+    Statements only; every proof is [exact <lemma>] (Proofs/Scope.v, Proofs/ScopeClose.v,
+    Proofs/ScopeLive.v for the liveness part, Proofs/TaskCounter.v for the counter).
     System: [init progs] = any number of threads with any operation lists — scope trees of any depth
     with shared and isolated children and any listener sets (failing listeners included) are built
     by the operations themselves; [run cfg_current sched] = any interleaving (Model/Scope.v).
     The log holds one record per Trigger call (event, firing scope, listener calls made). *)
-From GC Require Import Common.Base Model.Scope Proofs.Scope Proofs.ScopeClose.
+From GC Require Import Common.Base Model.Scope Model.ScopeLive Model.TaskCounter.
+From GC Require Import Proofs.Scope Proofs.ScopeClose Proofs.ScopeLive Proofs.TaskCounter.
 From Coq Require Import ZArith Permutation.
 Local Open Scope nat_scope.
 
@@ -115,8 +117,9 @@ Theorem C11_isolated :
 Proof. exact (conj exec_frame (conj watcher_steps watcher_kills)). Qed.
 Print Assumptions C11_isolated.
 
-(** Partial (liveness under fairness is not proved): the only blocked micro-steps are a Close or a
-    Wait waiting for an outstanding task/child, and a watcher neither of whose contexts is done. *)
+(** The only blocked micro-steps are a Close or a Wait waiting for an outstanding task/child, and a
+    watcher neither of whose contexts is done.  (Named partial because it is a safety statement; the
+    liveness statements are C11_close_returns and C11_close_inevitable below.) *)
 Theorem C11_no_stuck_partial : forall cf b i sh,
   exec cf b i sh = XBlocked ->
   (exists s, i = IRunClose s /\ s_pc (gets sh s) = CWait /\ s_wg (gets sh s) <> 0%Z) \/
@@ -148,4 +151,177 @@ Example C11_example :
     [[OAdd true; OClosed 0 true]; [OClosed 1 true; OBool true]; [OClosed 2 false; OClosed 3 true; OPanic PDouble]] /\
   c_errors (getc (sh st) 0) = [9%N] /\ c_errors (getc (sh st) 1) = [Canceled] /\
   map s_wg (scopes (sh st)) = [0; 0; 0; 0]%Z.
+Proof. vm_compute. repeat split. Qed.
+
+(** ** Liveness of Close
+
+    [C11_no_stuck_partial] above says what a blocked micro-step can be; the theorems below say that
+    nothing else is needed for Close to return.  The first [k = length progs] threads of a state are
+    the program threads (later ones are watchers of isolated contexts).  The premise [live_ok k st]
+    (Model/ScopeLive.v, executable) is about what the programs have left to do in [st]:
+    no AddTasks/NewChild is left (wind-down); for every scope the DoneTask operations left are
+    exactly its accepted, unfinished tasks; every started Close is being run by a program thread;
+    every registered child has its Close running or left in some program; and the programs do not
+    wait for each other in a circle: a Close s / Wait s on a scope whose counter is not zero is
+    followed, in the same thread, only by DoneTask a / Close a with a < s (children have larger
+    numbers than their parents).
+
+    In every reachable state with that premise there is a continuation schedule after which
+    every program thread has run to its end (so every Close call has come back), every scope is
+    either never closed or completely closed: its Close returned to its caller and the scope fired
+    the whole word BeforeClose, commit or rollback triple, AfterClose; this includes every Close that
+    had started and every Close still announced by a program for an existing scope.
+    Since the task counter of the model is the mutex/cond counter at the granularity of its
+    critical sections, this is: no lost wake-up, and no circular wait between a parent and its
+    children inside the library. *)
+Theorem C11_close_returns : forall progs sched,
+  let k := length progs in
+  let st := run cfg_current sched (init progs) in
+  live_ok k st = true ->
+  exists sched',
+    let st' := run cfg_current sched' st in
+    (forall th, In th (pthreads k st') -> t_cur th = [] /\ t_todo th = []) /\
+    (forall s, s < length (scopes (sh st')) ->
+       s_pc (gets (sh st') s) = CNone \/
+       (s_pc (gets (sh st') s) = CFinished /\ returned s st' = true /\
+        exists b, close_word (log (sh st')) s = full_word b)) /\
+    (forall s, s_pc (gets (sh st) s) <> CNone -> s_pc (gets (sh st') s) = CFinished) /\
+    (forall s th, valids (sh st) s = true -> In th (pthreads k st) -> In (OClose s) (t_todo th) ->
+       s_pc (gets (sh st') s) = CFinished).
+Proof. exact close_returns. Qed.
+Print Assumptions C11_close_returns.
+
+(** Stronger: not only is there a good schedule - no schedule can go wrong.  From such a state,
+    under EVERY continuation [sched1] (any interleaving of all threads, watchers included): the
+    program threads take at most N successful micro-steps altogether (N depends on the state only:
+    the micro-steps left in the programs plus the distance of every Close from its end); as long as
+    some program thread has not finished, some program thread can take a step (the thread parked on
+    the scope with the largest number waits for a thread that is not parked; a thread that can move
+    stays able to move, because no counter rises any more); and once all have finished everything
+    said in [C11_close_returns] holds.  Hence Close returns under every schedule that does not stop
+    scheduling a thread that can move. *)
+Theorem C11_close_inevitable : forall progs sched,
+  let k := length progs in
+  let st := run cfg_current sched (init progs) in
+  live_ok k st = true ->
+  exists N, forall sched1, let st1 := run cfg_current sched1 st in
+    psteps k sched1 st <= N /\
+    (forallb finished (pthreads k st1) = false ->
+     exists n st2, n < k /\ step cfg_current (n, true) st1 = Some st2) /\
+    (forallb finished (pthreads k st1) = true ->
+     (forall th, In th (pthreads k st1) -> t_cur th = [] /\ t_todo th = []) /\
+     (forall s, s < length (scopes (sh st1)) ->
+        s_pc (gets (sh st1) s) = CNone \/
+        (s_pc (gets (sh st1) s) = CFinished /\ returned s st1 = true /\
+         exists b, close_word (log (sh st1)) s = full_word b)) /\
+     (forall s, s_pc (gets (sh st) s) <> CNone -> s_pc (gets (sh st1) s) = CFinished) /\
+     (forall s th, valids (sh st) s = true -> In th (pthreads k st) -> In (OClose s) (t_todo th) ->
+        s_pc (gets (sh st1) s) = CFinished)).
+Proof. exact close_inevitable_ex. Qed.
+Print Assumptions C11_close_inevitable.
+
+(** The premise is necessary (expected behaviour, not a defect): if an accepted task of a scope whose
+    Close is waiting is never finished - no DoneTask for it is left in any program - the Close stays
+    blocked in its wait under EVERY continuation; only BeforeClose has been fired. *)
+Theorem C11_close_blocks_without_done : forall progs sched s,
+  let st := run cfg_current sched (init progs) in
+  s_pc (gets (sh st) s) = CWait -> (0 < s_tasks (gets (sh st) s))%Z ->
+  (forall th, In th (ths st) -> ~ In (ODoneTask s) (t_todo th)) ->
+  forall sched', let st' := run cfg_current sched' st in
+    s_pc (gets (sh st') s) = CWait /\ close_step cfg_current (sh st') s = XBlocked /\
+    close_word (log (sh st')) s = [BC].
+Proof. exact close_blocks_forever. Qed.
+Print Assumptions C11_close_blocks_without_done.
+
+(** Non-vacuity of the premise.  The example above, once thread 0 has built the tree and parked in
+    Close 0 (task 1 outstanding, children 1 and 2 open), satisfies it (before that it does not:
+    AddTasks/NewChild are still to come); so does a history of the shape the harness generates
+    (main thread + one goroutine per Close) at its drain phase. *)
+Example C11_live_example :
+  live_ok 3 (init ex_progs) = false /\
+  live_ok 3 (run cfg_current (repeat (t 0) 40) (init ex_progs)) = true /\
+  live_ok 3 (run cfg_current (repeat (t 0) 40 ++ repeat (t 1) 10 ++ repeat (t 2) 20) (init ex_progs)) = true.
+Proof. vm_compute. repeat split. Qed.
+
+Definition ex_hist : list hop :=
+  [HOp ONewRoot; HOp (ONewChild 0 false); HOp (ONewChild 1 true); HOp (OAddTasks 1); HOp (OAddTasks 0);
+   HClose 0; HOp (OKill 2); HOp (ODoneTask 1); HClose 1; HOp (OErr 0); HClose 2; HOp (ODoneTask 0)].
+Example C11_live_harness_shape :
+  let st := run cfg_current (repeat (t 0) 5 ++ repeat (t 1) 12) (init (progs_of ex_hist)) in
+  map s_pc (scopes (sh st)) = [CWait; CNone; CNone] /\ map s_wg (scopes (sh st)) = [2; 2; 0]%Z /\
+  live_ok 4 st = true.
+Proof. vm_compute. repeat split. Qed.
+
+(** Necessity, concretely.  (a) The DoneTask is missing: the premise fails and Close 0 is blocked
+    for ever.  (b) Two programs wait for each other (each closes a scope and only then finishes the
+    task of the other scope): the ordering clause of the premise fails, and indeed no thread can
+    move any more - a deadlock of the callers, not of the library. *)
+Definition ex_nodone : list (list op) := [[ONewRoot; OAddTasks 0; OClose 0; OErr 0]].
+Example C11_blocks_example :
+  let st := run cfg_current (repeat (t 0) 10) (init ex_nodone) in
+  live_ok 1 st = false /\
+  forall sched', s_pc (gets (sh (run cfg_current sched' st)) 0) = CWait.
+Proof.
+  split. vm_compute; reflexivity.
+  intros sched'. apply (C11_close_blocks_without_done ex_nodone (repeat (t 0) 10) 0).
+  - vm_compute; reflexivity.
+  - vm_compute; reflexivity.
+  - vm_compute. intros th [<-|[]]; simpl; intuition discriminate.
+Qed.
+
+Definition ex_circular : list (list op) :=
+  [[ONewRoot; ONewRoot; OAddTasks 0; OAddTasks 1];
+   [OClose 0; ODoneTask 1];
+   [OClose 1; ODoneTask 0]].
+Example C11_circular_example :
+  let st := run cfg_current (repeat (t 0) 4 ++ repeat (t 1) 9 ++ repeat (t 2) 9) (init ex_circular) in
+  map s_pc (scopes (sh st)) = [CWait; CWait] /\
+  forallb (ordered_thread (sh st)) (pthreads 3 st) = false /\ live_ok 3 st = false /\
+  forall sched', run cfg_current sched' st = st.
+Proof.
+  split. vm_compute; reflexivity. split. vm_compute; reflexivity. split. vm_compute; reflexivity.
+  apply deadlocked_stuck. vm_compute. reflexivity.
+Qed.
+
+(** ** The task counter below the granularity of [Scope.v] (Model/TaskCounter.v)
+
+    The theorems above use the counter as 'the wait can return iff the counter is 0'.  The finer
+    model has the lazily created condition variable, the notify list and the re-test loop of
+    taskcounter.go (one step per region protected by the mutex; cond.Wait splits Wait in two).
+    For all programs of Add(d)/Wait calls from any number of goroutines and all schedules:
+    the counter is never negative (a refused decrement leaves it unchanged), and a goroutine asleep
+    in cond.Wait implies a non-zero counter - no wake-up is lost, whether the condition variable
+    existed or not when the counter reached zero. *)
+Theorem C11_counter_no_lost_wakeup : forall progs sched,
+  let st := trun sched (tinit progs) in
+  (0 <= tc_counter st)%Z /\
+  forall m, pcl (tc_ths st) m = TParked -> tc_counter st <> 0%Z /\ tc_cond st = true.
+Proof. exact no_lost_wakeup. Qed.
+Print Assumptions C11_counter_no_lost_wakeup.
+
+(** Wait returns exactly at zero, which is the granularity of [CWait]/[IWait]: in a reachable state
+    with counter 0 a goroutine inside Wait is awake and its own next step returns; and a step in
+    which some Wait returns is a step of that goroutine taken with the counter at 0. *)
+Theorem C11_counter_wait_at_zero : forall progs sched,
+  let st := trun sched (tinit progs) in
+  (forall m, tc_counter st = 0%Z -> pcl (tc_ths st) m <> TIdle ->
+     exists st', tstep m st = Some st' /\ pcl (tc_ths st') m = TIdle /\
+                 waits_of (tc_ths st') m = S (waits_of (tc_ths st) m) /\ tc_counter st' = 0%Z) /\
+  (forall n m st', tstep n st = Some st' -> waits_of (tc_ths st') m <> waits_of (tc_ths st) m ->
+     m = n /\ tc_counter st = 0%Z /\ tc_counter st' = 0%Z /\ pcl (tc_ths st') m = TIdle).
+Proof. exact wait_returns_at_zero. Qed.
+Print Assumptions C11_counter_wait_at_zero.
+
+(** Non-vacuity: two waiters sleep, the counter passes through 1 and reaches 0, both are woken and
+    return; a third Wait called at zero returns at once; a decrement below zero is refused. *)
+Example C11_counter_example :
+  let progs := [[KAdd 2; KWait]; [KWait; KAdd (-1)]; [KAdd (-1); KAdd (-1)]] in
+  let s1 := trun [0; 0; 1] (tinit progs) in
+  let s2 := trun [2; 2] s1 in
+  let s3 := trun [0; 1; 1; 2] s2 in
+  (tc_counter s1, map tt_pc (tc_ths s1)) = (2%Z, [TParked; TParked; TIdle]) /\
+  (tc_counter s2, map tt_pc (tc_ths s2)) = (0%Z, [TWoken; TWoken; TIdle]) /\
+  (tc_counter s3, map tt_pc (tc_ths s3), map tt_out (tc_ths s3)) =
+    (0%Z, [TIdle; TIdle; TIdle],
+     [[TOAdd true; TOWait]; [TOWait; TOAdd false]; [TOAdd true; TOAdd true]]).
 Proof. vm_compute. repeat split. Qed.
